@@ -33,7 +33,7 @@ def short(text, n=150):
 def main():
     res = json.load(open(os.path.join(ROOT, "seeded", "RESULTS.json")))
     rows = []
-    caught = missed = 0
+    caught = missed = obsolete = 0
     for name in sorted(res):
         meta = {}
         mp = os.path.join(ROOT, "seeded", name, "meta.json")
@@ -51,8 +51,12 @@ def main():
                 verdicts.append("%s quiet" % cid)
             else:
                 verdicts.append("%s harness-error" % cid)
-        caught += hit
-        missed += not hit
+        if meta.get("obsolete") and not hit:
+            verdicts.append("*obsolete: %s*" % short(meta["obsolete"], 120))
+            obsolete += 1
+        else:
+            caught += hit
+            missed += not hit
         rows.append("| %s | %s | %s | %s |" % (
             name, short(meta.get("summary", ""), 170).replace("|", "/"),
             short(meta.get("needs", ""), 170).replace("|", "/"),
@@ -61,8 +65,10 @@ def main():
              "(bold = exit 1 with a VIOLATION line) |",
              "|---|---|---|---|"] + rows
     table.append("")
-    table.append("%d seeded changes, %d caught by at least one registered "
-                 "check, %d missed." % (caught + missed, caught, missed))
+    table.append("%d seeded changes: %d caught by at least one registered "
+                 "check, %d missed, %d obsolete (made harmless by a later fix: "
+                 "commit; their own demonstrations pass on the current tree)."
+                 % (caught + missed + obsolete, caught, missed, obsolete))
     text = "\n".join(table)
     if "--print" in sys.argv:
         print(text)
